@@ -100,8 +100,12 @@ func VH_C05_udp_domain() {
 	h.Handle(client)
 	verifQuiesce()
 	for _, t := range verifTargets {
-		for _, w := range t.writes {
+		for i, w := range t.writes {
 			ua := w.addr.(*net.UDPAddr)
+			if i == 0 {
+				// the datagram that created the association went to an allowed destination
+				verifAssert("C04.udp-domain.association-created-for-allowed-destination", !verifMustReject(ua.IP))
+			}
 			verifAssert("C05.udp-domain.destination-public", !verifMustReject(ua.IP))
 			verifReach("C05.udp-domain.forwarded", true)
 		}
